@@ -109,7 +109,7 @@ def confirm_rejection(binary, shard, rej, wd, n, module, cfg, watchdog=10):
         return None
     recs = vlib.load_trace(tp)
     payload = {"schema": shard["w"].schema, "mode": shard["w"].mode, "flavour": os.path.basename(os.path.dirname(os.path.dirname(binary))),
-               "script": script, "origin": shard["w"].origin}
+               "script": script, "origin": shard["w"].origin, "driver": os.path.basename(binary), "module": module, "cfg": cfg}
     if v["rejected"]:
         r = v["rejected"][0]
         payload["reason"] = r["reason"]
